@@ -4,5 +4,5 @@ CONSTANTS
   MaxLen = 2
 SPECIFICATION Spec
 INVARIANTS TypeOK OutStructure CapsShape ErrIff EntropyComputedOnce DrawBudget UniformWhenCapitalisable MinEntropyHolds
-PROPERTIES RecipeNeverWritten Terminates
+PROPERTIES PanicIsTerminal RecipeNeverWritten Terminates
 CHECK_DEADLOCK FALSE
